@@ -9,7 +9,11 @@ import DspVerif.Lib.GenBridge
 
 `Gen/StepsFir.lean` is written by `tools/cxx2lean.py` on every check run (both instantiations, `T = real_t`, `cmplx_t`):
 * `_conv<T>(const T* x, const T* h, T* r, int nh, int nx)` as `Gen.fir?ConvKernel` with its two nested loops
-  (`r[i] = 0; r[i] += x[i + k] * conj(h[nh - k - 1])`: `fir?ConvKernel_loop1/2`), the raw pointers as the arrays they point into;
+  (`r[i] = 0; r[i] += x[i + k] * conj(h[nh - k - 1])`: `fir?ConvKernel_loop1/2`), the raw pointers as the arrays they point into.
+  The row lemmas `convR_row` / `convC_row` accept BOTH ways of writing the inner sum — accumulate into the cell `r[i]`, or
+  accumulate into a local (`T acc = 0; … acc += px[k] * …; r[i] = acc;`, also through a shifted pointer `px = x + i`, which the
+  translator turns into (array, offset)) — so that behaviour-preserving rewrite (false-alarm control `benign-conv-acc`) keeps
+  PROOF green, while another tap index, sample index, start value, loop bound or a dropped `conj` breaks it in either style;
 * `FirFilter<T>::conv(x, h)` as `Gen.fir?Conv` (`arr r(x.size() - h.size() + 1)`, the kernel call on `r.data()`);
 * `FirFilter<T>::process(s)` as `Gen.fir?Process`: `x = _d | s` (`arrConcat`, pinned `operator|`), `r = conv(x, _h)`,
   `nd = _h.size() - 1`, `nx = x.size()`, and the history hand-over `_d = x.slice(nx - nd, nx)` as `arrSlice`
